@@ -526,6 +526,64 @@ fn sequential_round(case_seed: u64, r: &mut Report) {
     r.eval(hash_str(&format!("{}{:?}", key, trace)), true);
 }
 
+/// Many threads create *different, new* keys at the same instant (first put of each key), then
+/// every key is read back at quiescence. Per-key histories are trivially sequential here, so the
+/// register oracle is simply: each key holds exactly the one value written to it. This drives the
+/// slot / id allocation paths that only run on a key's first put.
+fn fresh_keys_round(case_seed: u64, r: &mut Report) {
+    let mut rng = Rng::new(case_seed);
+    let threads = 3 + rng.below(6);
+    let per_thread = 4 + rng.below(12);
+    let store = Arc::new(TensorStore::new());
+    let barrier = Arc::new(Barrier::new(threads));
+    let classes = ["emb:", "emb:", "emb:", "k:", "node:"];
+    let handles: Vec<_> = (0..threads)
+        .map(|t| {
+            let (store, barrier) = (store.clone(), barrier.clone());
+            let mut rng = Rng::new(case_seed ^ (t as u64 + 7).wrapping_mul(0xA24B_AED4));
+            std::thread::spawn(move || {
+                let mut written: Vec<(String, u64)> = Vec::new();
+                let plan: Vec<(String, Shape)> = (0..per_thread)
+                    .map(|i| {
+                        let class = *rng.pick(&classes);
+                        let key = format!("{}f{}_{}", class, t, i);
+                        let shape = if class == "emb:" { *rng.pick(&[Shape::EmbSlab, Shape::EmbSlab, Shape::EmbOther]) } else { Shape::Plain };
+                        (key, shape)
+                    })
+                    .collect();
+                barrier.wait();
+                for (i, (key, shape)) in plan.into_iter().enumerate() {
+                    let wid = wid_for(t, i as u64 + 1, shape);
+                    if store.put(key.clone(), make_value(wid, shape)).is_ok() {
+                        written.push((key, wid));
+                    }
+                }
+                written
+            })
+        })
+        .collect();
+    let mut all: Vec<(String, u64)> = Vec::new();
+    for h in handles {
+        all.extend(h.join().expect("worker"));
+    }
+    let replay = json!({"part": "fresh", "case_seed": case_seed});
+    for (key, wid) in &all {
+        r.count("fresh_keys_read_back", 1);
+        match store.get(key).map(|d| decode_value(&d)) {
+            Ok(Ok(w)) if w == *wid => {}
+            other => {
+                r.violation(
+                    if key.starts_with("emb:") { "fresh-keys:key-does-not-hold-its-only-write:emb-key" } else { "fresh-keys:key-does-not-hold-its-only-write" },
+                    format!("{} threads each created {} new keys at once; at quiescence get({}) = {:?}, but its only write was {}", threads, per_thread, key, other.map(|x| x.map_err(|e| trunc(&e, 200))).map_err(|_| "NotFound"), wid),
+                    replay.clone(),
+                );
+                return;
+            }
+        }
+    }
+    r.eval(hash_combine(case_seed, 0xF2E5), true);
+}
+
 /// Engine layered on the store: VectorEngine single-key operations on 1-3 contended keys.
 /// Every stored vector is uniform (all elements = write id), so a torn or mixed read is visible.
 fn engine_round(case_seed: u64, r: &mut Report) {
@@ -641,6 +699,7 @@ fn main() {
             match rp["part"].as_str().unwrap_or("stress") {
                 "parked" => parked_round(s, &mut total, &args),
                 "engines" => engine_round(s, &mut total),
+                "fresh" => fresh_keys_round(s, &mut total),
                 "sequential" => sequential_round(s, &mut total),
                 _ => stress_round(s, &mut total, &args),
             }
@@ -669,6 +728,11 @@ fn main() {
             let rep = par_cases(outer, args.seed ^ 0xE6, n, args.budget(25, 400), |_i, s, r| engine_round(s, r));
             total.merge(rep);
         }
+        if part == "all" || part == "fresh" || part == "stress" {
+            let n = args.by_tier(400u64, 20_000u64);
+            let rep = par_cases(outer, args.seed ^ 0xF5, n, args.budget(20, 240), |_i, s, r| fresh_keys_round(s, r));
+            total.merge(rep);
+        }
         if part == "all" || part == "sequential" {
             let n = args.by_tier(300u64, 5_000u64);
             let rep = par_cases(2, args.seed ^ 0x99, n, args.budget(20, 120), |_i, s, r| sequential_round(s, r));
@@ -677,7 +741,7 @@ fn main() {
     }
     let meta = Meta {
         property: "C11",
-        rule: "stress round = one real TensorStore, 2-8 OS threads x 6-19 operations on 1-4 contended keys of classes plain/emb(384-dim slab vector, other dim, none)/node/table/edge/_cache, non-durable or durable (manual / immediate sync), half of the rounds with seeded jitter at the put_durable/delete_durable hook points; every call recorded at the client boundary (atomic tick before and after); values self-describing (write id in every field and vector element). Oracles: value integrity per read, Wing-Gong linearizability per key (scan decomposed per key), recovered-state == live state after quiescence. Distinct = hash of the observed call order (thread, op, key by call tick); non-trivial = at least two operations of different threads on one key overlapped in time. parked rounds = the deterministic two-writer schedule at put_durable:after_log; sequential rounds = single-thread register semantics; engine rounds = the same history check on VectorEngine::{store_embedding,get_embedding,delete_embedding,exists} over one shared store.",
+        rule: "stress round = one real TensorStore, 2-8 OS threads x 6-19 operations on 1-4 contended keys of classes plain/emb(384-dim slab vector, other dim, none)/node/table/edge/_cache, non-durable or durable (manual / immediate sync), half of the rounds with seeded jitter at the put_durable/delete_durable hook points; every call recorded at the client boundary (atomic tick before and after); values self-describing (write id in every field and vector element). Oracles: value integrity per read, Wing-Gong linearizability per key (scan decomposed per key), recovered-state == live state after quiescence. Distinct = hash of the observed call order (thread, op, key by call tick); non-trivial = at least two operations of different threads on one key overlapped in time. parked rounds = the deterministic two-writer schedule at put_durable:after_log; sequential rounds = single-thread register semantics; fresh rounds = 3-8 threads creating 4-15 distinct new keys each at the same instant, every key read back at quiescence; engine rounds = the same history check on VectorEngine::{store_embedding,get_embedding,delete_embedding,exists} over one shared store.",
         assumptions: vec![
             "the Ok/NotFound result of delete is not judged (Delete is modelled as a blind write); a failed delete records no event".into(),
             "a prefix scan is judged per key (each listed/absent contended key is a read inside the scan's interval), not as an atomic snapshot".into(),
@@ -686,7 +750,7 @@ fn main() {
         floors: if args.replay.is_some() || part != "all" {
             vec![("evaluations", 5)]
         } else {
-            vec![("events_recorded", 5_000), ("rounds_with_overlapping_ops", 100), ("key_histories_linearizable", 200), ("parked_at_after_log", 5), ("durable_rounds_recovered", 20), ("sequential_reads_checked", 500), ("engine_key_histories_linearizable", 100)]
+            vec![("events_recorded", 5_000), ("rounds_with_overlapping_ops", 100), ("key_histories_linearizable", 200), ("parked_at_after_log", 5), ("durable_rounds_recovered", 20), ("sequential_reads_checked", 500), ("engine_key_histories_linearizable", 100), ("fresh_keys_read_back", 2_000)]
         },
         exhaustive: false,
     };
